@@ -1,8 +1,10 @@
 #!/bin/bash
 # applies each behaviour-preserving refactoring in selftest/refactors to a scratch copy of /repo HEAD and runs every
-# claimed check (quick): all must stay silent.
+# claimed check (quick): all must stay silent.  usage: refactortest.sh [-v] [name ...]
 cd /verif
+VERB=0; [ "$1" = "-v" ] && { VERB=1; shift; }
 PROPS=$(python3 -c "import json;print(' '.join(c['property_id'] for c in json.load(open('MANIFEST.json'))['checks']))")
+LIST="$@"; [ -z "$LIST" ] && LIST=$(ls selftest/refactors)
 one() {
   r=$1
   W=$(mktemp -d /tmp/refrun.XXXXXX)
@@ -11,10 +13,14 @@ one() {
   hits=""
   for p in $PROPS; do
     out=$(GTCHECK_REPO=$W GTCHECK_EVIDENCE=$W/.ev ./run.sh $p quick 2>&1); rc=$?
-    if [ $rc -ne 0 ]; then hits="$hits $p"; echo "$out" | grep -E "violated|UNDECIDED|CHECK-ERROR" | sed "s/^/    [$r $p] /" | cut -c1-400; fi
+    if [ $rc -ne 0 ]; then
+      rules=$(echo "$out" | grep -oE 'rule [A-Z0-9]+-[A-Za-z0-9]+' | sort -u | tr '\n' ',' | sed 's/rule //g; s/,$//')
+      hits="$hits $p($rules)"
+      [ $VERB = 1 ] && echo "$out" | grep -E "violated|UNDECIDED|CHECK-ERROR" | sed "s/^/    [$r $p] /" | cut -c1-420
+    fi
   done
   echo "$r: alarms:${hits:- none}"
   rm -rf $W
 }
-export -f one; export PROPS
-ls selftest/refactors | xargs -P 8 -I{} bash -c 'one {}'
+export -f one; export PROPS VERB
+printf '%s\n' $LIST | xargs -P 8 -I{} bash -c 'one {}' | sort
